@@ -929,6 +929,16 @@ def check_history(sends, readers):
                 ptr += 1
             if c.get('exc') and pending and not last:
                 continue   # a later (retried) final drain decides
+            if pending and not c.get('final') and c.get('t1') is not None and any(
+                    st0 < c['t1'] and st1 > c['t0'] for (st0, st1, _pid) in info.values()):
+                # another send was under way while this call ran: a record is written with several write() calls once it
+                # is longer than the file buffer, so the reader may have stopped in front of a line that was still being
+                # written (TatSu's receive() stops at an incomplete line, as it must to keep the order) and the packets
+                # behind it - complete or not - wait for a later call.  The statement promises delivery, once and in
+                # order, not delivery by the end of the next call: such a call is counted, a later call (at the latest
+                # the final drain, which runs when every sender is done) decides.
+                stats['calls_deferred_send_in_flight'] = stats.get('calls_deferred_send_in_flight', 0) + 1
+                continue
             for k in sorted(pending):
                 sig = 'queue/id-collision-dedup' if k in colliding else 'queue/lost'
                 out.append((sig, f'reader {rname}: send {k} had returned before the receive call began '
